@@ -293,10 +293,22 @@ func (vt *Model) dl(ps int)
   ensures C05_inv: Inv(vt)
   loop * invariant inv: Inv(vt) && ps >= 0
 
+-- in row r, from column c0 on, every cell holds what the cell n columns to its right held on entry, and the last n
+-- columns (as far as the line reaches) are erased with bg; the columns before c0 are as on entry
+pred RowShiftedLeft(vt *Model, r int, c0 int, n int, bg vaxis.Color) =
+     forall c in 0..Wd(vt): (c < c0 ? vt.activeScreen[r][c] == old(vt.activeScreen[r][c])
+                             : (c + n < Wd(vt) ? vt.activeScreen[r][c] == oldat(vt.activeScreen[r], c + n) : Erased(vt.activeScreen[r][c], bg)))
 func (vt *Model) dch(ps int)
   requires inv: Inv(vt)
   requires ps: ps >= 0
   ensures C05_inv: Inv(vt)
+  -- DCH (ECMA-48 8.3.26): delete n characters at the cursor; the rest of the line moves left, blanks enter at the end
+  ensures C06_dch: RowShiftedLeft(vt, old(vt.cursor.row), old(vt.cursor.col), (ps == 0 ? 1 : ps), old(vt.cursor.Background))
+  ensures C06_cursor: vt.cursor.row == old(vt.cursor.row) && vt.cursor.col == old(vt.cursor.col) && !vt.lastCol
+  loop 1 invariant C06_part: vt.cursor == old(vt.cursor) && row == vt.cursor.row && ps >= 1 && (old(ps) == 0 ? ps == 1 : ps == old(ps)) && vt.cursor.col <= col && col <= Wd(vt)
+       && backing(vt.activeScreen[row]) == old(backing(vt.activeScreen[row])) && offset(vt.activeScreen[row]) == old(offset(vt.activeScreen[row]))
+       && (forall c in 0..Wd(vt): (c < vt.cursor.col || c >= col) ? vt.activeScreen[row][c] == old(vt.activeScreen[row][c])
+                                  : (c + ps < Wd(vt) ? vt.activeScreen[row][c] == oldat(vt.activeScreen[row], c + ps) : Erased(vt.activeScreen[row][c], vt.cursor.Background)))
   loop * invariant inv: Inv(vt)
 
 func (vt *Model) ech(ps int)
